@@ -2,7 +2,7 @@
 from props.common import *
 import binascii
 
-MODULE = "PestModel.Thm.C01"
+MODULE = ["PestModel.Thm.C01", "PestModel.Thm.EndToEnd"]
 DRV, MODE = "drv_sem", "grammar"
 LISTER_ID = "C05-lister-not-preserving"
 WSLEAK_ID = "C01-whitespace-stack-leak"
